@@ -300,6 +300,24 @@ public class BigRat {
     // Accelerators for operators that HAVE a TLA+ definition in BigRat.tla
     // (RSum, RDot): same value, evaluated without TLC's recursion overhead.
     // ------------------------------------------------------------------
+    /** RSort(s) == SortSeq(s, RLt): ascending sort of a sequence of rationals (accelerator of the TLA+ definition) */
+    public static Value RSort(final Value seq) {
+        final TupleValue t = (TupleValue) seq.toTuple();
+        final int n = t.elems.length;
+        final Integer[] idx = new Integer[n];
+        final BigInteger[][] vals = new BigInteger[n][];
+        for (int i = 0; i < n; i++) {
+            idx[i] = i;
+            vals[i] = of(t.elems[i]);
+        }
+        java.util.Arrays.sort(idx, (a, b) -> cmp(vals[a], vals[b]));
+        final Value[] out = new Value[n];
+        for (int i = 0; i < n; i++) {
+            out[i] = t.elems[idx[i]];
+        }
+        return new TupleValue(out);
+    }
+
     public static Value RSum(final Value seq) {
         final TupleValue t = (TupleValue) seq.toTuple();
         BigInteger p = BigInteger.ZERO, q = BigInteger.ONE;
